@@ -23,6 +23,7 @@ import (
 	"github.com/buildbarn/bb-storage/pkg/blobstore/replication"
 	"github.com/buildbarn/bb-storage/pkg/blobstore/slicing"
 	"github.com/buildbarn/bb-storage/pkg/digest"
+	"github.com/buildbarn/bb-storage/pkg/eviction"
 	"github.com/buildbarn/bb-storage/pkg/verifshim/vsched"
 	"github.com/buildbarn/bb-storage/pkg/verifshim/vsemaphore"
 	"github.com/buildbarn/bb-storage/pkg/verifshim/vsync"
@@ -190,6 +191,10 @@ func mkReplicator(kind string, source, sink blobstore.BlobAccess) replication.Bl
 		return replication.NewDeduplicatingBlobReplicator(base, sink, digest.KeyWithoutInstance)
 	case "limit":
 		return replication.NewConcurrencyLimitingBlobReplicator(base, sink, vsemaphore.NewWeighted(1))
+	case "queued":
+		// remembers (for a minute of virtual time, which never passes here) what it has replicated
+		ec := digest.NewExistenceCache(lstore.VClock{}, digest.KeyWithoutInstance, 4, time.Minute, eviction.NewLRUSet[string]())
+		return replication.NewQueuedBlobReplicator(source, base, ec)
 	}
 	return base
 }
@@ -514,7 +519,10 @@ func main() {
 	depth := ev.Pick(r, 2, 3)
 	budget := time.Duration(ev.Pick(r, 60, 600)) * time.Second
 	for _, local := range []bool{false, true} {
-		for _, repl := range []string{"local", "dedup", "limit"} {
+		for _, repl := range []string{"local", "dedup", "limit", "queued"} {
+			if local && repl == "queued" {
+				continue
+			}
 			kind := "model"
 			if local {
 				kind = "localstore"
